@@ -458,6 +458,8 @@ pub enum Special {
     /// TerminationMock::report.each_call(matching!()).returns(SUCCESS / FAILURE): report() hands out
     /// the mocked code; the instance is verified when it is dropped at the end of report()
     MockedReport { success: bool },
+    /// Termination::report mocked with a `panics(..)` response: report() is a call like any other
+    MockedReportPanics,
 }
 
 #[derive(Serialize, Deserialize, Clone, Copy, Debug, PartialEq, Eq, Hash)]
